@@ -191,7 +191,7 @@ def stratum_vcf_input(rng, tmp, counters):
     # 2-6 interleaved series of phase sets (all of them fit under the default coverage cap of 15)
     interleave = rng.choice([True, True, 4, 6]) if (rng.random() < 0.5 and intag != "PS-without-PS-field") else False
     doc, blocks = genome.truth_phased_doc(sim, rng, tag="PS" if intag.startswith("PS") else "HP", block_len=(1, 8), interleave=interleave,
-                                          no_ps=(intag == "PS-without-PS-field"))
+                                          no_ps=(intag == "PS-without-PS-field"), hp_unsorted=0.3)  # HP inputs: some GT in descending order
     pv = os.path.join(tmp, "phased_in.vcf")
     doc.write(pv)
     outtag = rng.choice(["PS", "HP"])
